@@ -271,7 +271,8 @@ class FatIO(io.RawIOBase):
                 # Nothing has been written, keep reporting the old size
                 self.dir_entry.filesize = old_size
                 raise
-            if cur_pos > size:
+            if cur_pos >= size:
                 # The cursor may point into the released part of the chain
+                # (at size itself: to the start of the first released cluster)
                 self.seek(size)
             return size
